@@ -29,6 +29,9 @@ type C14Case struct {
 	Writes    []BitOp `json:"writes"`
 	Reads     []BitOp `json:"reads"` // re-partition; whatever is left is read as one array
 	PostClose bool    `json:"post_close"`
+	// SrcSizes: the byte source under the reader delivers pieces of these sizes (last repeats; empty = fills every
+	// request): the values read and the bit counter must not depend on how the source chunks the bytes
+	SrcSizes []int `json:"src_sizes,omitempty"`
 }
 
 func arrBytes(seed uint64, nbytes int) []byte {
@@ -161,7 +164,9 @@ func runC14(c C14Case) (o c14Out) {
 	}
 	o.nontrivial = unalignedBig && sink.Writes >= 2
 	err = guard(func() error {
-		ibs, e := bitstream.NewDefaultInputBitStream(fio.NewSource(sink.Data), c.RBuf)
+		rsrc := fio.NewSource(sink.Data)
+		rsrc.Sizes = c.SrcSizes
+		ibs, e := bitstream.NewDefaultInputBitStream(rsrc, c.RBuf)
 		if e != nil {
 			return fmt.Errorf("ctor: %v", e)
 		}
@@ -289,6 +294,9 @@ func drawC14(t *rapid.T) C14Case {
 	}
 	c.Writes = drawBitOps(t, "w", int(c.WBuf)*8, maxOps, true)
 	c.Reads = drawBitOps(t, "r", int(c.RBuf)*8, maxOps, false)
+	if rapid.IntRange(0, 2).Draw(t, "pieces") == 0 {
+		c.SrcSizes = rapid.SliceOfN(rapid.SampledFrom([]int{1, 3, 5, 7, 10, 13, 100, 777, 1001, 1021, 4099}), 1, 4).Draw(t, "srcSizes")
+	}
 	c.PostClose = rapid.Bool().Draw(t, "postClose")
 	return c
 }
